@@ -777,7 +777,8 @@ impl<'a> LineBreaker<'a> {
                     let mut diffs = diffs.clone();
                     if let Some(elem) = elem {
                         // TeX.2021.837
-                        match elem {
+                        // `s` is the index of the first node that may be discarded after the break.
+                        let mut s = match elem {
                             Discretionary(discretionary) => {
                                 // TeX.2021.840
                                 let mut j = i + 1;
@@ -816,19 +817,32 @@ impl<'a> LineBreaker<'a> {
                                         | Kern(ds::Kern { width, .. }) => *width,
                                     }
                                 }
-                            }
-                            Math(_math) => {
-                                // TODO when math node is fixed in boxworks crate.
-                            }
-                            Glue(glue) => {
-                                diffs.update_from_glue(&glue.value);
-                            }
-                            Kern(kern) => {
-                                if kern.kind == ds::KernKind::Explicit {
-                                    diffs.width -= kern.width;
+                                // Nodes after the replaced nodes may be discardable after
+                                // the break, but only if there is no post-break material.
+                                if discretionary.post_break.is_empty() {
+                                    Some(j)
+                                } else {
+                                    None
                                 }
                             }
-                            _ => {}
+                            _ => Some(i),
+                        };
+                        // The nodes that are discarded after the break (the break node
+                        // itself, unless it is a discretionary, and the glue, penalty, math
+                        // and explicit kern nodes that follow) are not part of the next line.
+                        while let Some(j) = s {
+                            match list.get(j) {
+                                Some(Glue(glue)) => diffs.update_from_glue(&glue.value),
+                                Some(Penalty(_)) | Some(Math(_)) => {
+                                    // TODO: subtract the width of the math node
+                                    // when math node is fixed in boxworks crate.
+                                }
+                                Some(Kern(kern)) if kern.kind == ds::KernKind::Explicit => {
+                                    diffs.width += kern.width;
+                                }
+                                _ => break,
+                            }
+                            s = Some(j + 1);
                         }
                     }
                     for fitness_class in [
